@@ -54,4 +54,8 @@ INDICATOR_MAP = {
     "VWAP": VWAP,
     "VWMA": VWMA,
     "WMA": WMA,
+    # names as emitted by Indicator.settings, so that a settings dict builds the indicator it came from
+    "AROON": AROON,
+    "COUNT": Counter,
+    "DONCHIAN": Donchian,
 }
